@@ -272,7 +272,22 @@ static void gen_c05(G &g, u64 base_seed) {
     const XorSet &xs = all[pos];
     g.cells.push(std::string("xor:") + std::to_string(pos) + ((g.index & 1) ? ":portable" : ":sse2"));
     Cfg c = xor_shape_index(xs.table); c.ct = g.world.chance(1, 2) ? 2 : 1;
+    // neighbours: other flat-XOR instances of other tables alive (or already gone) while the set is walked - an instance's
+    // tables must be its own.  0: alone; 1: neighbour created after; 2: before; 3: after and destroyed again; 4: one before, one after
+    int nb = (int) g.world.below(5);
+    auto neighbour = [&](int slot) {
+        Cfg o = xor_shape_index((int) ((xs.table + 1 + g.world.below(XOR_GOLDEN_N - 1)) % XOR_GOLDEN_N)); o.ct = 1;
+        g.ops.push(create_op(slot, o));
+        if (g.world.chance(1, 3)) {
+            Json q = put_op(g, 1 + (slot - 1), slot, o); q.set("len", (i64) g.data.range(1, 400)); g.ops.push(q);
+            u64 so = full(o.n()) & ~random_subset(g.faults, o.n(), (int) g.faults.range(1, std::max(1, o.hd - 1)));
+            Json j = mk("GET"); j.set("obj", 1 + (slot - 1)).set("slot", slot).set("force", 0).set("dl", delivery(g, so, o.n(), false)); g.ops.push(j);
+        }
+    };
+    if (nb == 2 || nb == 4) neighbour(1);
     g.ops.push(create_op(0, c));
+    if (nb == 1 || nb == 3 || nb == 4) neighbour(2);
+    if (nb == 3) { Json d = mk("DESTROY"); d.set("slot", 2); g.ops.push(d); }
     Json p = put_op(g, 0, 0, c);
     // payload sizes: non-multiples of 16 and of 4 bytes per fragment are the kernel's tail paths
     if (g.data.chance(1, 2)) p.set("len", (i64) ((u64) c.k * 4 * g.data.range(1, 300) - (u64) g.data.range(0, 3)));
